@@ -154,6 +154,7 @@ pub fn run<C: Suite>(ctx: &mut Ctx) {
         large.push((40, 2, 3));
         if !slow {
             large.push((20, 15, 17));
+            large.push((130, 2, 130)); // more than 127 map entries: multi-byte length prefixes
         }
     } else {
         large.extend([(257, 2, 3), (40, 30, 33), (64, 33, 64)]);
